@@ -19,9 +19,12 @@ CHECKS = {
  "C05": dict(engine="array", ref="5 C05, 3.1, 3.6",
    text="Thresholds.tla: the arithmetic lemmas behind the size band (two maximal elements fit, an index slab that does not underflow has two children, merge bound, 16-bit header sizes) are checked by TLC for every legal slab size 256..32768. ArrayTree.tla preserves well-formedness in every reachable shape. TreeInv.tla (size band, element limits, root index slab >= 2 children, header copies, count sums, sibling links) is evaluated by TLC on the forest projected from the real slabs after EVERY replayed operation; content is adopted so only structural facts are judged.",
    note="map half of the property is covered by the map engine when present; projection reads slab fields through verif-tagged exports; bounded as C01"),
+ "C06": dict(engine="persist+nested", ref="5 C06",
+   text="Bookkeeping half (model level): TreeInv recomputes on the forest projected after EVERY operation the reported size of every slab as prefix(kind, root?, inlined?) + element sizes, element-list and group sizes, header copies and counts (SizesAgree / AllValid) for TLC-explored array histories, map histories under all digest assignments, nested walks, and for bulk-built / copied containers over every element-size stream. Byte half (measured): at every commit the harness splits each raw register (2-byte head, root extra-data item, shared inlined-extra-data item, body) and logs the body length, the sibling-link flag, the size reported by the slab decoded from the register and by the in-memory slab; EncodedLenRelation requires reported = body (+16 for a non-root data slab without sibling link), '<=' when the shared section holds compact-map data, decoded size = in-memory size = size in the projected forest.",
+   note="the byte split is done by the harness with the CBOR stream decoder, independent of the library's own serialization verifier; inlined children are covered through the sizes of their parents (element size = child size), not encoded separately"),
  "C07": dict(engine="persist", ref="5 C07",
    text="At every commit point of TLC-explored array histories (all shapes up to 3-4 elements x persistence events) and of simulated array / map walks, every register is decoded by a brand-new storage and projected; the cold forest (elements in order, sizes, counts, type info, seeds, sibling links, header copies, collision groups) must EQUAL the forest of the in-memory slabs that produced the registers (ColdEqualsWarm) and satisfy TreeInv.",
-   note="re-encoding equality and header flags are covered by the byte-level stage when present in evidence; compact-map exception does not arise with the simple type infos used here"),
+   note="ReencodesExactly (EncodeSlab(DecodeSlab(raw)) == raw) and FlagsTruthful (root-of-a-value, holds-references, size-limited flags read from the raw bytes through the public functions equal the values the specification derives from the projected forest) are evaluated on every register at every commit, also for nested walks with inlined arrays / maps / compact maps / wrapped values / large keys; the compact-map exception is respected by comparing maps as key-value sets in nested traces"),
  "C08": dict(engine="persist", ref="5 C08",
    text="Commit, DropCache and reopen are stuttering steps of the abstract model; the multi-run acceptor executes each TLC-simulated history (arrays and maps, including reads and rejected requests) under five schedules from 'commit only at the end' to 'commit after every operation', with cache drops and reopenings at random points, and requires identical per-operation results, identical final content and byte-identical final registers.",
    note="only root handles are kept across cache drops (handle-tree discipline, DESIGN 4.2); no composite type infos here so registers must be byte-identical"),
